@@ -120,6 +120,31 @@ func c10Queries(w *l1World) error {
 		if len(tp.TokenPairs) != len(b.Pairs) {
 			return fmt.Errorf("bridge %d: TokenPairs lists %d pairs, model has %d", id, len(tp.TokenPairs), len(b.Pairs))
 		}
+		// the same listing read page by page (one pair on the first page, then two at a time, following next_key - the
+		// last page asks for more than the bridge has left): the same pairs, nothing of another bridge
+		if len(b.Pairs) > 0 && len(b.Pairs) <= 12 {
+			var walked []ophosttypes.TokenPair
+			req := &query.PageRequest{Limit: 1}
+			for rounds := 0; rounds < 40; rounds++ {
+				pg, err := e.Q.TokenPairs(e.Ctx, &ophosttypes.QueryTokenPairsRequest{BridgeId: id, Pagination: req})
+				if err != nil {
+					return fmt.Errorf("bridge %d: TokenPairs page: %v", id, err)
+				}
+				walked = append(walked, pg.TokenPairs...)
+				if pg.Pagination == nil || len(pg.Pagination.NextKey) == 0 {
+					break
+				}
+				req = &query.PageRequest{Key: pg.Pagination.NextKey, Limit: 2}
+			}
+			if len(walked) != len(tp.TokenPairs) {
+				return fmt.Errorf("bridge %d: read page by page TokenPairs lists %d pairs (%v), read at once %d", id, len(walked), walked, len(tp.TokenPairs))
+			}
+			for i := range walked {
+				if walked[i] != tp.TokenPairs[i] {
+					return fmt.Errorf("bridge %d: read page by page TokenPairs has %v at position %d, read at once %v", id, walked[i], i, tp.TokenPairs[i])
+				}
+			}
+		}
 		for _, p := range tp.TokenPairs {
 			if b.Pairs[p.L2Denom] != p.L1Denom || p.L2Denom != ref.L2Denom(id, p.L1Denom) {
 				return fmt.Errorf("bridge %d: token pair %v is not the deterministic derivation of a deposited denom", id, p)
